@@ -21,7 +21,7 @@ func init() {
 	run.Register(&run.Check{
 		ID:    "C19",
 		Level: "fault_enumeration",
-		Rule: "fault enumeration: conflict kind (7: equal ANP priorities, ANP priority outside 0..1000, duplicate ANP name, duplicate NetworkPolicy name in one namespace, two BANPs, BANP not named default, pods of one owner with different labels) x number of other admin policies {0,1,2,3,5,8,11,12,13,20,31,64,200} x position of the conflicting documents {first,last,adjacent,far apart,median} x route {list, diff with the conflict in dir1, in dir2}, file placement random; " +
+		Rule: "fault enumeration: conflict kind (7: equal ANP priorities, ANP priority outside 0..1000, duplicate ANP name, duplicate NetworkPolicy name in one namespace, two BANPs, BANP not named default, pods of one owner with different labels) x number of other admin policies {0,1,2,3,5,8,11,12,13,20,31,64,200} x position of the conflicting documents {first,last,adjacent,far apart,median} x route {list, diff with the conflict in dir1, in dir2}, file placement random; the conflicting admin policy has rules in one direction, in both, or no rule at all; fillers include rule-less policies and the legal boundary priorities 0 and 1000; " +
 			"each cell is run with the conflict (expected: error returned, no connections, a fatal entry in Errors(), message naming the conflict) and as a conflict-free twin (expected: clean analysis), so an oracle that fires on everything is caught; " +
 			"non-trivial = the conflict-free twin analysed cleanly with a non-empty report; distinct = cell + filler hash",
 		Assumptions:       []string{"'naming the conflict' = the message contains one of the conflicting resource names, the offending priority value, or the words baseline/default for the BANP kinds", "exposure mode is out of scope (it rejects every ANP)"},
@@ -29,7 +29,7 @@ func init() {
 		Run:               runC19,
 		MinNonTrivial:     500,
 		MinEffectiveShare: 0.8,
-		RequiredEvents:    map[string]int64{"conflict_runs": 1000, "twin_runs_clean": 1000, "rejected_with_identifying_message": 1000, "cells_n_ge_12": 300},
+		RequiredEvents:    map[string]int64{"conflict_runs": 1000, "twin_runs_clean": 1000, "rejected_with_identifying_message": 1000, "cells_n_ge_12": 300, "conflicting_anp_without_rules": 50},
 	})
 }
 
@@ -106,8 +106,23 @@ func runC19(c *run.Ctx) {
 		pris[i] = i
 	}
 	rng.Shuffle(g, pris)
+	// the legal boundary priorities 0 and 1000 among the fillers (the conflict-free twin must accept them)
+	for slot, want := range []int{0, 1000} {
+		if slot < n && g.P(0.3) {
+			for j := range pris {
+				if pris[j] == want {
+					pris[slot], pris[j] = pris[j], pris[slot]
+				}
+			}
+			r.Ev("twin_with_boundary_priority", 1)
+		}
+	}
 	for i := 0; i < n; i++ {
-		w.ANPs = append(w.ANPs, fillerANP(g, w, i, pris[i]))
+		f := fillerANP(g, w, i, pris[i])
+		if g.P(0.1) { // a policy without any rule is legal
+			f.Ingress, f.Egress = nil, nil
+		}
+		w.ANPs = append(w.ANPs, f)
 	}
 	if g.P(0.3) && kind != "two-banp" && kind != "banp-not-default" {
 		w.BANP = &world.BANP{Name: "default", Subject: world.GenSubject(g, w)}
@@ -122,6 +137,16 @@ func runC19(c *run.Ctx) {
 	var conflict []world.Doc
 	tokens := []string{}
 	anpDoc := func(a world.ANP) world.Doc {
+		// shape of the conflicting policy: as drawn (one direction), no rule at all, or both directions - a conflict is a conflict
+		// whatever the policy would do
+		switch g.Intn(4) {
+		case 0:
+			a.Ingress, a.Egress = nil, nil
+			r.Ev("conflicting_anp_without_rules", 1)
+		case 1:
+			b := fillerANP(g, w, 9100, 0)
+			a.Ingress, a.Egress = append(a.Ingress, b.Ingress...), append(a.Egress, b.Egress...)
+		}
 		return world.Doc{Kind: "AdminNetworkPolicy", Name: a.Name, YAML: world.ANPYAML(&a)}
 	}
 	switch kind {
